@@ -4,6 +4,8 @@
 package task
 
 import (
+	"fmt"
+
 	apierrors "k8s.io/apimachinery/pkg/api/errors"
 	"k8s.io/klog/v2"
 	"sigs.k8s.io/cli-utils/pkg/apply/event"
@@ -20,7 +22,10 @@ type DeleteOrUpdateInvTask struct {
 	InvClient     inventory.Client
 	InvInfo       inventory.Info
 	PrevInventory object.ObjMetadataSet
-	DryRun        common.DryRunStrategy
+	// PrevInvErr is the error from reading PrevInventory, if any. The task
+	// fails with it rather than acting on an incomplete PrevInventory.
+	PrevInvErr error
+	DryRun     common.DryRunStrategy
 	// if Destroy is set, the inventory will be deleted if all objects were successfully pruned
 	Destroy bool
 }
@@ -48,7 +53,9 @@ func (i *DeleteOrUpdateInvTask) Identifiers() object.ObjMetadataSet {
 func (i *DeleteOrUpdateInvTask) Start(taskContext *taskrunner.TaskContext) {
 	go func() {
 		var err error
-		if i.Destroy && i.destroySuccessful(taskContext) {
+		if i.PrevInvErr != nil {
+			err = fmt.Errorf("failed to read previous inventory: %w", i.PrevInvErr)
+		} else if i.Destroy && i.destroySuccessful(taskContext) {
 			err = i.deleteInventory()
 		} else {
 			err = i.updateInventory(taskContext)
